@@ -4,6 +4,7 @@ Nodes are (context, body, block).  Local sync calls, awaited local coroutines, t
 blocks, `join`ed async blocks and `select!` arms are spliced in; await Pending arms are pruned
 (runs are followed to completion; truncation is handled by the rules as "any prefix")."""
 from .core import BV, mkphi, strip, walk, is_logging_span
+from . import lib
 
 
 class Ctx:
@@ -56,6 +57,7 @@ class World:
                 self.by_id[b["id"]] = b
         self._mention = {}
         self._driven = None
+        lib._world = self
 
     def bv(self, bid):
         b = self.by_id.get(bid)
